@@ -15,7 +15,7 @@
 EXTENDS Integers, Sequences, FiniteSets, TLC
 
 Ids == {1, 2}
-Cfgs == {"A", "B"}
+Cfgs == {"A", "B", "C"}          \* C has the same array shapes as A (grids, q-points, modes) but different data
 Quantities == {"modulus_adiabatic", "modulus_isothermal", "tp_bulk_vrh", "tp_vp", "tp_volumes", "compliances"}
 Writes == {<<"tp", "cij">>, <<"tp", "bm_VRH">>, <<"tv", "p">>}
 Seeds == {"0", "1", "2", "random"}
